@@ -377,16 +377,27 @@ func Flat2(css [][][]F) ([]float64, []int) {
 }
 
 // Flat3 flattens polygons and returns the cumulative endss.
+//
+// The rows of endss are windows, one int apart, of one table of ints (what a caller who
+// preallocates the offsets hands over): every row's spare capacity runs on over the
+// rows behind it, so that an append onto a row - which the library has no business
+// doing to a slice it was given - overwrites the next polygon's offsets.
 func Flat3(csss [][][][]F) ([]float64, [][]int) {
 	var out []float64
+	n := 0
+	for _, css := range csss {
+		n += len(css)
+	}
+	table := make([]int, 0, n+len(csss)+3)
 	var endss [][]int
 	for _, css := range csss {
-		var ends []int
+		table = append(table, -7) // a gap between rows: rows of a fixed-width table are not back to back
+		start := len(table)
 		for _, cs := range css {
 			out = append(out, Flat1(cs)...)
-			ends = append(ends, len(out))
+			table = append(table, len(out))
 		}
-		endss = append(endss, ends)
+		endss = append(endss, table[start:len(table)])
 	}
 	return out, endss
 }
@@ -550,18 +561,52 @@ func Build(g *G, route Route) (geom.T, error) {
 				return nil, err
 			}
 		}
-		for i := range g.Members {
-			m, err := Build(&g.Members[i], route)
-			if err != nil {
-				return nil, err
-			}
-			if err := gc.Push(m); err != nil {
-				return nil, err
-			}
+		if err := fillCollection(gc, g, route); err != nil {
+			return nil, err
 		}
 		return gc.SetSRID(g.SRID), nil
 	}
 	return nil, fmt.Errorf("model: unknown kind %q", g.Kind)
+}
+
+// fillCollection pushes the members of g into gc. On the Push and MustSetCoords routes
+// collections are built top-down where the layouts allow it: a nested collection is
+// pushed while it is still member-less and gains its members afterwards (a collection
+// holds its members by reference), so that nothing the outer collection worked out at
+// Push time may be relied on later. The other routes build bottom-up.
+func fillCollection(gc *geom.GeometryCollection, g *G, route Route) error {
+	topDown := route == RoutePush || route == RouteMustSetCoords
+	var later []func() error
+	for i := range g.Members {
+		m := &g.Members[i]
+		if topDown && m.Kind == GeometryCollection && (g.Layout == 0 || m.Layout != 0) {
+			inner := geom.NewGeometryCollection()
+			if m.Layout != 0 {
+				if err := inner.SetLayout(m.Lay()); err != nil {
+					return err
+				}
+			}
+			inner.SetSRID(m.SRID)
+			if err := gc.Push(inner); err != nil {
+				return err
+			}
+			later = append(later, func() error { return fillCollection(inner, m, route) })
+			continue
+		}
+		t, err := Build(m, route)
+		if err != nil {
+			return err
+		}
+		if err := gc.Push(t); err != nil {
+			return err
+		}
+	}
+	for _, f := range later {
+		if err := f(); err != nil {
+			return err
+		}
+	}
+	return nil
 }
 
 // MustBuild is Build that panics on error.
